@@ -46,14 +46,14 @@ def WellFormed (v : Val) : Prop := Typing.checkVal false v (typeOf v) = true ∧
 body (its MAP bodies keep the element type) -/
 def StrictWF (v : Val) : Prop := Typing.checkVal true v (typeOf v) = true ∧ Typing.litOk v = true
 
-/-- **shape digests**: for each of the 86 instruction forms, the helpers (`execute_dip`, `execute_shift`, `dispatch_types`
+/-- **shape digests**: for each of the 99 instruction forms, the helpers (`execute_dip`, `execute_shift`, `dispatch_types`
 …) and the `MichelsonStack` / `PairType` / `from_value` methods they call, the normalised statement list in the source
 is the one the mirror `Impl` was written from (translator/c01.py, `SHAPES`) -/
 theorem source_bodies_recognised : Generated.C01.bodyRecognised.all (·.2) = true := by decide
 
-/-- the digest list covers all 86 instruction forms -/
-theorem source_bodies_cover_all_forms : Generated.C01.modelledForms = 86 ∧ 86 ≤ Generated.C01.bodyRecognised.length := by
-  decide
+/-- the digest list covers all 99 instruction forms -/
+theorem source_bodies_cover_all_forms : Generated.C01.modelledForms = 99 ∧ 99 ≤ Generated.C01.bodyRecognised.length := by
+  decide +kernel
 
 /-- the `dispatch_types` tables read from arithmetic.py are the reference tables -/
 theorem arithmetic_tables_eq_reference :
@@ -223,7 +223,7 @@ end
 the PUSHed lambda literals, in LAMBDA bodies — leaves an element of the type it was given.  For such programs, run on
 strictly well-typed values (`StrictWF`: the lambdas on the input stack have strictly typed bodies too), the guard of
 `welltyped_run_eq_reference` never fires, so C01's statement holds with static hypotheses only.  The invariant "every
-lambda on the stack has a strictly typed body" is carried through all 86 instruction forms by the same preservation /
+lambda on the stack has a strictly typed body" is carried through all 99 instruction forms by the same preservation /
 progress development as the non-strict one, instantiated at the mode `Mode.strictGuarded`. -/
 
 /-- strict typing refines typing: same result -/
@@ -380,6 +380,68 @@ example (h : Hashes) (b : List Nat) :
   run_ok _ 20 _ [] _ (by simp [Spec.eval, Spec.evalSeq, Spec.step, Spec.stepMore, Res.bind])
 example : Spec.eval true { env0 with totalVotingPower := 7, minBlockTime := 15 } 20
     (.seq [.TOTAL_VOTING_POWER, .CAST .nat, .RENAME, .MIN_BLOCK_TIME]) [] = .ok [.num .nat 15, .num .nat 7] := by rfl
+
+-- extension 2, phase A.  BYTES gives the shortest big-endian / two's complement encoding (0 ↦ empty, a sign byte only where
+-- needed), NAT / INT read it back (leading zero bytes allowed, the empty string is 0)
+example : Spec.eval true env0 20 (.seq [.PUSH .int (.num .int (-129)), .BYTES]) [] = .ok [.bytes [255, 127]] := by rfl
+example : Spec.eval true env0 20 (.seq [.PUSH .int (.num .int 128), .BYTES, .PUSH .int (.num .int (-128)), .BYTES]) []
+    = .ok [.bytes [128], .bytes [0, 128]] := by rfl
+example : Spec.eval true env0 20 (.seq [.PUSH .int (.num .int 0), .BYTES, .PUSH .nat (.num .nat 0), .BYTES, .PUSH .nat (.num .nat 256), .BYTES]) []
+    = .ok [.bytes [1, 0], .bytes [], .bytes []] := by rfl
+example : Spec.eval true env0 20 (.seq [.PUSH .bytes (.bytes [255]), .INT, .PUSH .bytes (.bytes [0, 255]), .INT, .PUSH .bytes (.bytes []), .INT,
+      .PUSH .bytes (.bytes [0, 1, 0]), .NAT]) []
+    = .ok [.num .nat 256, .num .int 0, .num .int 255, .num .int (-1)] := by rfl
+example : Impl.run env0 20 (.seq [.PUSH .int (.num .int (-32769)), .BYTES, .DUP, .INT]) []
+    = .ok [.num .int (-32769), .bytes [255, 127, 255]] :=
+  run_ok env0 20 _ [] _ (by rfl)
+-- NEVER closes a branch that cannot be taken: the program is well-typed (the branch has every type) and runs
+example : Typing.typeInstr false (.seq [.PUSH (.or .never .int) (.right .never (.num .int 5)), .IF_LEFT .NEVER (.seq [])]) []
+    = some (.ok [.int]) := by rfl
+example : Impl.run env0 20 (.seq [.PUSH (.or .never .int) (.right .never (.num .int 5)), .IF_LEFT .NEVER (.seq [])]) []
+    = .ok [.num .int 5] :=
+  run_ok env0 20 _ [] _ (by rfl)
+-- VOTING_POWER / HASH_KEY: for EVERY voting-power table and key-hashing function of the environment
+example (vp : List Nat → Int) (h : Hashes) (k : List Nat) (hv : 0 ≤ vp (h.hashKey k)) :
+    Impl.run { env0 with votingPower := vp, hashes := h } 20 (.seq [.PUSH .key (.atom .key k), .HASH_KEY, .DUP, .VOTING_POWER]) []
+      = .ok [.num .nat (vp (h.hashKey k)), .atom .keyHash (h.hashKey k)] :=
+  run_ok _ 20 _ [] _ (by simp [Spec.eval, Spec.evalSeq, Spec.step, Spec.stepMore, Spec.stepExt, Spec.unV, Spec.hashKeyV,
+    Spec.votingPowerV, Spec.numOk, Res.bind, hv])
+
+-- phase C: contracts and operations (address texts as character codes: `KT1` = [75, 84, 49], `tz1` = [116, 122, 49], `%` = 37,
+-- `a` = [97], `b` = [98]).  The address of a handle names its entrypoint, and CONTRACT finds the entrypoint again; an address
+-- that names an entrypoint cannot be asked for another one; an implicit account is a `contract unit` only
+def envC : Env := { env0 with self := [75, 84, 49] }
+example : Spec.eval true envC 20 (.seq [.SELF [97] .nat, .ADDRESS, .DUP, .CONTRACT .nat defaultEp, .SWAP, .CONTRACT .nat [98]]) []
+    = .ok [.none (.contract .nat), .some (.contract .nat [75, 84, 49, 37, 97])] := by rfl
+example : Spec.eval true envC 20 (.seq [.PUSH .address (.atom .address [116, 122, 49]), .DUP, .CONTRACT .nat defaultEp, .SWAP,
+      .CONTRACT .unit defaultEp]) []
+    = .ok [.some (.contract .unit [116, 122, 49]), .none (.contract .nat)] := by rfl
+-- TRANSFER_TOKENS records source, destination, entrypoint, amount and the parameter; SET_DELEGATE and EMIT likewise — and
+-- the machine builds exactly these operations
+example : Impl.run envC 20 (.seq [.PUSH .address (.atom .address [75, 84, 50, 37, 97]), .CONTRACT .nat defaultEp,
+      .IF_NONE (.seq [.UNIT, .FAILWITH]) (.seq [.PUSH .mutez (.num .mutez 0), .PUSH .nat (.num .nat 7), .TRANSFER_TOKENS])]) []
+    = .ok [.opTransfer [75, 84, 49] [75, 84, 50] [97] 0 (.num .nat 7) .nat] :=
+  run_ok envC 20 _ [] _ (by rfl)
+example : Impl.run envC 20 (.seq [.PUSH .keyHash (.atom .keyHash [116, 122, 49]), .DUP, .IMPLICIT_ACCOUNT, .ADDRESS, .SWAP, .SOME,
+      .SET_DELEGATE, .UNIT, .EMIT [120] .unit]) []
+    = .ok [.opEmit [75, 84, 49] [120] .unit .unit, .opDelegate [75, 84, 49] (some [116, 122, 49]), .atom .address [116, 122, 49]] :=
+  run_ok envC 20 _ [] _ (by rfl)
+example : Typing.typeInstr false (.seq [.PUSH .address (.atom .address [75, 84, 50, 37, 97]), .CONTRACT .nat defaultEp,
+      .IF_NONE (.seq [.UNIT, .FAILWITH]) (.seq [.PUSH .mutez (.num .mutez 0), .PUSH .nat (.num .nat 7), .TRANSFER_TOKENS]),
+      .NIL .operation, .SWAP, .CONS]) [] = some (.ok [.list .operation]) := by rfl
+
+-- phase B (first half): PACK = `05` + binary Micheline of the canonical optimized form — a comb of two components is
+-- `Pair a b` (`07 07 …`), of four the sequence of its components (`02 <length> …`), a map a sequence of `Elt`s
+example : Spec.eval true env0 20 (.seq [.PUSH (.pair .int .nat) (.pair (.num .int 1) (.num .nat 2)), .PACK]) []
+    = .ok [.bytes [5, 7, 7, 0, 1, 0, 2]] := by rfl
+example : Spec.eval true env0 20 (.seq [.PUSH (.pair .int (.pair .nat (.pair .unit .string)))
+      (.pair (.num .int (-1)) (.pair (.num .nat 5) (.pair .unit (.str [97])))), .PACK]) []
+    = .ok [.bytes [5, 2, 0, 0, 0, 12, 0, 65, 0, 5, 3, 11, 1, 0, 0, 0, 1, 97]] := by rfl
+example : Impl.run env0 20 (.seq [.PUSH (.map .string (.option .bool)) (.map .string (.option .bool) [.pair (.str [97]) (.some (.bool true))]), .PACK]) []
+    = .ok [.bytes [5, 2, 0, 0, 0, 12, 7, 4, 1, 0, 0, 0, 1, 97, 5, 9, 3, 10]] :=
+  run_ok env0 20 _ [] _ (by rfl)
+-- a lambda or an address has a packed form too, but not in the model: not a packable type here
+example : Typing.typeInstr false .PACK [.address] = none := by rfl
 
 -- non-vacuity of `welltyped_run_eq_reference` / `progress`: a well-typed program with a loop, a lambda call and a sorted
 -- set literal, run on a well-typed input stack; the hypotheses hold and the run is inside the guard
